@@ -386,3 +386,116 @@ def name_universe(toks, rng, maxlen=4, sigma_cap=5, extra=(), derivations=6, ica
             seen.add(x)
             names.append(x)
     return names, alpha
+
+
+# ---------------------------------------------------------------------------------------------
+# Path mode
+SEPS = ('/', '/', '/', '//', '\\/')
+
+
+def seg_pool_small():
+    """Reduced pool of whole-segment patterns for bounded-exhaustive path patterns."""
+    pool = [(t,) for t in ATOMS]
+    pool += [(('gstar',),), (('gstarlong',),)]
+    pool += [(('lit', 'a'), ('star',)), (('star',), ('lit', 'b')), (('lit', '.'), ('star',)), (('q',), ('q',)),
+             (('lit', 'a'), ('gstar',)), (('gstar',), ('lit', 'a')), (('lit', 'a'), ('lit', 'b'))]
+    for kind in '?*+@!':
+        pool.append((('grp', kind, ((('lit', 'a'),),)),))
+        pool.append((('grp', kind, ((('lit', 'a'),), (('star',),))),))
+        pool.append((('grp', kind, ((('lit', '.'), ('lit', 'a')), (('lit', 'b'),))),))
+        pool.append((('grp', kind, ((('q',),), ())),))
+    return pool
+
+
+def join_segments(segs, rng=None, lead=False, trail=False, seps=None):
+    toks = []
+    if lead:
+        toks.append(('sep', '/'))
+    for i, s in enumerate(segs):
+        if i:
+            sep = (seps[i - 1] if seps else (rng.choice(SEPS) if rng else '/'))
+            toks.append(('sep', sep))
+        toks.extend(s)
+    if trail:
+        toks.append(('sep', '/'))
+    return tuple(toks)
+
+
+def rand_segment(rng, alpha='ab.c', depth=2):
+    r = rng.random()
+    if r < 0.12:
+        return (('gstar',),)
+    if r < 0.16:
+        return (('gstarlong',),)
+    if r < 0.22:
+        # `**` glued to text: just a star there
+        lit = ('lit', rng.choice('ab'))
+        return (lit, ('gstar',)) if rng.random() < 0.5 else (('gstar',), lit)
+    toks = rand_tokens(rng, maxtok=rng.randint(1, 4), depth=depth, alpha=alpha)
+    return make_fragment(toks, rng) or (('lit', 'a'),)
+
+
+def rand_path_tokens(rng, maxseg=3, alpha='ab.c', depth=2):
+    n = rng.randint(1, maxseg)
+    segs = [rand_segment(rng, alpha, depth) for _ in range(n)]
+    # no two adjacent globstar segments of different kinds in assertions about merging: keep them, they are legal
+    lead = rng.random() < 0.12
+    trail = rng.random() < 0.2
+    return join_segments(segs, rng, lead, trail)
+
+
+def path_universe(toks, rng, nseg_names=6, maxseg=3, extra_names=(), allow_hidden=True, cap=420):
+    """Paths built from a per-pattern pool of segment names, with separator variants."""
+    from .refmodel import split_segments, norm_seg
+    chars = sorted(c for c in pattern_chars(toks) if c not in '/\n\\' and c.isprintable())
+    sigma = []
+    for c in chars + ['c', '.']:
+        if c not in sigma:
+            sigma.append(c)
+    sigma = sigma[:5] if len(sigma) > 5 else sigma
+    if '.' not in sigma:
+        sigma[-1] = '.'
+    alpha = ''.join(sigma)
+    names = []
+    _abs, segs, _tr = split_segments(toks)
+    for s in segs:
+        for _ in range(3):
+            d = derive(rng, norm_seg(s), alpha)
+            if d and '/' not in d and d not in names:
+                names.append(d)
+    base = [x for x in names_upto(sigma, 2)]
+    rng.shuffle(base)
+    for x in list(extra_names) + base:
+        if x not in names:
+            names.append(x)
+    if not allow_hidden:
+        names = [n for n in names if not n.startswith('.')]
+    # keep derivations first, then fill
+    names = names[:nseg_names]
+    paths = []
+    for n in range(1, maxseg + 1):
+        for tup in itertools.product(names, repeat=n):
+            paths.append('/'.join(tup))
+    if len(paths) > cap:
+        head = paths[:len(names) + len(names) ** 2]
+        rest = paths[len(head):]
+        rng.shuffle(rest)
+        paths = head + rest[:cap - len(head)]
+    out = list(paths)
+    for p in rng.sample(paths, min(len(paths), 40)):
+        out.append(p + '/')
+        if '/' in p:
+            out.append(p.replace('/', '//', 1))
+        out.append('/' + p)
+    # whole-path derivations
+    for _ in range(6):
+        d = derive(rng, tuple(('star',) if t[0] in ('gstar', 'gstarlong') else t for t in toks), alpha)
+        if d and d not in out and d.strip('/'):
+            out.append(d)
+    seen = set()
+    res = []
+    for p in out:
+        if p and p not in seen:
+            seen.add(p)
+            res.append(p)
+    return res
